@@ -134,6 +134,17 @@ class Asn1Type(Asn1Item):
                  self.subtypeSpec.isSuperTypeOf(other.subtypeSpec)))
 
     @staticmethod
+    def _refine(current, option):
+        # subtyping narrows: a bare constraint (class-level
+        # `subtypeSpec = ValueRangeConstraint(13, 19)`) is one member of the
+        # intersection, its own `+`, if any, means something else
+        if (isinstance(current, constraint.AbstractConstraint) and
+                not isinstance(current, constraint.AbstractConstraintSet)):
+            current = constraint.ConstraintsIntersection(current)
+
+        return current + option
+
+    @staticmethod
     def isNoValue(*values):
         for value in values:
             if value is not noValue:
@@ -439,7 +450,7 @@ class SimpleAsn1Type(Asn1Type):
             initializers['tagSet'] = self.tagSet.tagExplicitly(explicitTag)
 
         for arg, option in kwargs.items():
-            initializers[arg] += option
+            initializers[arg] = self._refine(initializers[arg], option)
 
         return self.__class__(value, **initializers)
 
@@ -675,7 +686,7 @@ class ConstructedAsn1Type(Asn1Type):
             initializers['tagSet'] = self.tagSet.tagExplicitly(explicitTag)
 
         for arg, option in kwargs.items():
-            initializers[arg] += option
+            initializers[arg] = self._refine(initializers[arg], option)
 
         clone = self.__class__(**initializers)
 
